@@ -181,6 +181,9 @@ func checkC18(c *hx.Ctx) {
 			"publicKey": []interface{}{goodKey("k1")}, "service": []interface{}{goodSvc("s1")}, "~": map[string]interface{}{"t": 1.0}, "a/b": map[string]interface{}{"s": 2.0},
 			"~1": map[string]interface{}{"u": 3.0}, "0": map[string]interface{}{"z": 4.0}},
 		{"arr": []interface{}{}, "o": map[string]interface{}{}, "n": nil, "publicKey": []interface{}{goodKey("k1"), goodKey("k2")}},
+		// sections holding elements that are not entries (reachable when a validated replace patch carries such elements, see the
+		// replace-with-non-object-elements jobs below)
+		{"publicKey": []interface{}{"junk", 5.0, nil, goodKey("k1"), []interface{}{}}, "service": []interface{}{"junk", goodSvc("s1"), nil}, "alsoKnownAs": []interface{}{"https://a.example", 7.0, map[string]interface{}{}}},
 	}
 	// evaluate: validate + (if accepted) apply to every doc; rules oracle; effect monitor
 	evaluate := func(patches []interface{}, class string, mustReject string, p *protocol.Protocol) bool {
@@ -433,6 +436,16 @@ func checkC18(c *hx.Ctx) {
 			}
 		}
 		c.Set("duplicate_id_key_entry_kinds", len(kinds))
+	}
+	// replace patches whose arrays carry elements that are not entries, followed by ordinary patches on the resulting document
+	for _, junk := range []interface{}{"junk", 5.0, nil, []interface{}{}, true} {
+		rp := patchReplace([]interface{}{junk, goodKey("rk1")}, []interface{}{goodSvc("rs1"), junk})
+		jobs = append(jobs,
+			job{[]interface{}{rp}, "replace-with-non-object-elements", "", nil},
+			job{[]interface{}{rp, map[string]interface{}{"action": "add-public-keys", "publicKeys": []interface{}{goodKey("rk1"), goodKey("new")}}}, "replace-with-non-object-elements", "", nil},
+			job{[]interface{}{rp, patchRemoveKeys("rk1")}, "replace-with-non-object-elements", "", nil},
+			job{[]interface{}{rp, patchAddServices(goodSvc("rs1"), goodSvc("s9"))}, "replace-with-non-object-elements", "", nil},
+			job{[]interface{}{rp, map[string]interface{}{"action": "remove-services", "ids": []interface{}{"rs1"}}}, "replace-with-non-object-elements", "", nil})
 	}
 	// duplicates
 	jobs = append(jobs,
